@@ -28,22 +28,52 @@ def in_ty(t, v):
 # op: ("lit", [v..]) ("app", v) ("set", idx, v) ("get", idx) ("len",) ("sget", idx) ("print", v)
 #     calls handing the array by plain name to a user function (dynamic arrays are handles):
 #     ("cgrow", [v..])  grow_k(a, v..)  the callee appends k >= 0 elements      ("clen",)  show_len(a)  read only
-#     ("cset", idx, v)  set_T(a, i, v)  xs[i] = v in the callee                 ("cget", idx)  io::Println(get_T(a, i))
-# idx: (kind in {"const","opq"}, type, value);  prog: dict(str=<ascii str>, init=[..], ops=[..])
+# idx: (kind in {"const","opq"}, type, value, path);  prog: dict(str=<ascii str>, init=[..], ops=[..])
+# path: how the container is reached (all reach the SAME array / string; the model ignores it at run time):
+#   direct a[i] | val f(a,i) xs: []T | ref f(&a,i) xs: &[]T | mut f(&'a,i) xs: &'[]T | lref {let r := &a; r[i]} |
+#   lmut {let r := &'a; r[i]} | fld {let bx := {.Arr = a} as ABox; bx.Arr[i]} | fref f(&bx,i) b: &ABox |
+#   fmut f(&'bx,i) b: &'ABox | elem {let aa := [a]; aa[0][i]}
+PATHS = ["direct", "val", "ref", "mut", "lref", "lmut", "fld", "fref", "fmut", "elem"]
+PCTOR = dict(direct="PDirect", val="PVal", ref="PRef", mut="PMut", lref="PLRef", lmut="PLMut", fld="PFld", fref="PFRef", fmut="PFMut", elem="PElem")
+GET_PATHS = PATHS
+SET_PATHS = ["direct", "val", "mut", "lmut", "fld", "fmut", "elem"]
+SGET_PATHS = ["direct", "val", "ref", "mut", "lref", "lmut", "fld", "fref", "fmut", "elem"]
+FN_PATHS = ("val", "ref", "mut", "fref", "fmut")
 
-def idx_src(i, pre, n):
-    kind, t, v = i
+def ipath(i): return i[3] if len(i) > 3 else "direct"
+def idx_ops(p): return [o for o in p["ops"] if o[0] in ("set", "get", "sget")]
+
+def idx_src(i, pre, n, ind="    "):
+    kind, t, v = i[0], i[1], i[2]
     if kind == "opq":
         return "opq_%s(%d)" % (t, v)
-    if t == "i32":
-        return str(v)
+    if t == "i32" or ipath(i) in FN_PATHS:
+        return str(v)            # a literal; at a call site it is typed by the parameter
     name = "k%d" % n
-    pre.append("    let %s: %s = %d;" % (name, t, v))
+    pre.append("%slet %s: %s = %d;" % (ind, name, t, v))
     return name
 
+def param(kind, path):
+    """(parameter declaration, access expression) of a helper reaching the array (kind 'a') or string (kind 's')"""
+    ty = "[]i32" if kind == "a" else "str"
+    box = "ABox" if kind == "a" else "SBox"
+    fld = "Arr" if kind == "a" else "Txt"
+    if path == "val": return "xs: %s" % ty, "xs[i]"
+    if path == "ref": return "xs: &%s" % ty, "xs[i]"
+    if path == "mut": return "xs: &'%s" % ty, "xs[i]"
+    if path == "fref": return "b: &%s" % box, "b.%s[i]" % fld
+    if path == "fmut": return "b: &'%s" % box, "b.%s[i]" % fld
+    raise ValueError(path)
+
 def render(p):
-    used = sorted({o[1][1] for o in p["ops"] if o[0] in ("set", "get", "sget") and o[1][0] == "opq"}, key=ITY.index)
+    used = sorted({o[1][1] for o in idx_ops(p) if o[1][0] == "opq"}, key=ITY.index)
     L = ['import "std/io";', ""]
+    paths_a = {ipath(o[1]) for o in p["ops"] if o[0] in ("get", "set")}
+    paths_s = {ipath(o[1]) for o in p["ops"] if o[0] == "sget"}
+    if paths_a & {"fld", "fref", "fmut"}:
+        L += ["type ABox struct {", "    .Arr: []i32", "};", ""]
+    if paths_s & {"fld", "fref", "fmut"}:
+        L += ["type SBox struct {", "    .Txt: str", "};", ""]
     for t in used:
         L += ["fn opq_%s(x: %s) -> %s {" % (t, t, t), "    return x;", "}", ""]
     for k in sorted({len(o[1]) for o in p["ops"] if o[0] == "cgrow"}):
@@ -51,10 +81,16 @@ def render(p):
         L += ["    append(&'xs, v%d);" % j for j in range(k)] + ["}", ""]
     if any(o[0] == "clen" for o in p["ops"]):
         L += ["fn show_len(xs: []i32) {", "    io::Println(len(xs));", "}", ""]
-    for t in sorted({o[1][1] for o in p["ops"] if o[0] == "cset"}, key=ITY.index):
-        L += ["fn set_%s(xs: []i32, i: %s, v: i32) {" % (t, t), "    xs[i] = v;", "}", ""]
-    for t in sorted({o[1][1] for o in p["ops"] if o[0] == "cget"}, key=ITY.index):
-        L += ["fn get_%s(xs: []i32, i: %s) -> i32 {" % (t, t), "    return xs[i];", "}", ""]
+    helpers = sorted({(o[0], ipath(o[1]), o[1][1]) for o in idx_ops(p) if ipath(o[1]) in FN_PATHS},
+                     key=lambda h: (h[0], PATHS.index(h[1]), ITY.index(h[2])))
+    for opk, path, t in helpers:
+        decl, acc = param("s" if opk == "sget" else "a", path)
+        if opk == "get":
+            L += ["fn ag_%s_%s(%s, i: %s) -> i32 {" % (path, t, decl, t), "    return %s;" % acc, "}", ""]
+        elif opk == "set":
+            L += ["fn as_%s_%s(%s, i: %s, v: i32) {" % (path, t, decl, t), "    %s = v;" % acc, "}", ""]
+        else:
+            L += ["fn sg_%s_%s(%s, i: %s) -> i32 {" % (path, t, decl, t), "    let c: i32 = %s as i32;" % acc, "    return c;", "}", ""]
     L.append("fn main() {")
     L.append('    let s: str = "%s";' % p["str"])
     if p["init"]:
@@ -67,28 +103,48 @@ def render(p):
             L.append("    a = [%s];" % ", ".join(str(v) for v in o[1]))
         elif o[0] == "app":
             L.append("    append(&'a, %d);" % o[1])
-        elif o[0] == "set":
-            e = idx_src(o[1], pre, n); L += pre
-            L.append("    a[%s] = %d;" % (e, o[2]))
-        elif o[0] == "get":
-            e = idx_src(o[1], pre, n); L += pre
-            L.append("    io::Println(a[%s]);" % e)
+        elif o[0] in ("set", "get", "sget"):
+            i = o[1]; path = ipath(i); isstr = o[0] == "sget"
+            var = "s" if isstr else "a"
+            if path == "direct":
+                e = idx_src(i, pre, n); L += pre
+                if o[0] == "set": L.append("    a[%s] = %d;" % (e, o[2]))
+                elif o[0] == "get": L.append("    io::Println(a[%s]);" % e)
+                else:
+                    L.append("    let c%d: i32 = s[%s] as i32;" % (n, e)); L.append("    io::Println(c%d);" % n)
+                continue
+            # every other path lives in its own block (borrows and aliases end with it)
+            B = ["    {"]
+            e = idx_src(i, pre, n, ind="        ")
+            box = "{ .%s = %s } as %s" % ("Txt" if isstr else "Arr", var, "SBox" if isstr else "ABox")
+            if path in FN_PATHS:
+                if path in ("fref", "fmut"):
+                    B.append("        let bx := %s;" % box)
+                arg = {"val": var, "ref": "&" + var, "mut": "&'" + var, "fref": "&bx", "fmut": "&'bx"}[path]
+                fn = {"get": "ag", "set": "as", "sget": "sg"}[o[0]] + "_%s_%s" % (path, i[1])
+                if o[0] == "set": B.append("        %s(%s, %s, %d);" % (fn, arg, e, o[2]))
+                else: B.append("        io::Println(%s(%s, %s));" % (fn, arg, e))
+            else:
+                if path == "lref": B.append("        let r := &%s;" % var); acc = "r[%s]"
+                elif path == "lmut": B.append("        let r := &'%s;" % var); acc = "r[%s]"
+                elif path == "fld": B.append("        let bx := %s;" % box); acc = "bx.%s[%%s]" % ("Txt" if isstr else "Arr")
+                elif path == "elem": B.append("        let aa := [%s];" % var); acc = "aa[0][%s]"
+                else: raise ValueError(path)
+                B += pre
+                if o[0] == "set": B.append("        %s = %d;" % (acc % e, o[2]))
+                elif o[0] == "get": B.append("        io::Println(%s);" % (acc % e))
+                else:
+                    B.append("        let c%d: i32 = %s as i32;" % (n, acc % e)); B.append("        io::Println(c%d);" % n)
+            B.append("    }")
+            L += B
         elif o[0] == "len":
             L.append("    io::Println(len(a));")
-        elif o[0] == "sget":
-            e = idx_src(o[1], pre, n); L += pre
-            L.append("    let c%d: i32 = s[%s] as i32;" % (n, e))
-            L.append("    io::Println(c%d);" % n)
         elif o[0] == "print":
             L.append("    io::Println(%d);" % o[1])
         elif o[0] == "cgrow":
             L.append("    grow_%d(%s);" % (len(o[1]), ", ".join(["a"] + [str(v) for v in o[1]])))
         elif o[0] == "clen":
             L.append("    show_len(a);")
-        elif o[0] == "cset":
-            L.append("    set_%s(a, %d, %d);" % (o[1][1], o[1][2], o[2]))
-        elif o[0] == "cget":
-            L.append("    io::Println(get_%s(a, %d));" % (o[1][1], o[1][2]))
     L += ["}", ""]
     return "\n".join(L)
 
@@ -102,10 +158,10 @@ def py_spec(p):
         if o[0] == "lit": l = list(o[1])
         elif o[0] == "app": l.append(o[1])
         elif o[0] == "cgrow": l.extend(o[1])
-        elif o[0] in ("set", "cset"):
+        elif o[0] == "set":
             if not valid(o[1][2], len(l)): return out, True
             l[norm(o[1][2], len(l))] = o[2]
-        elif o[0] in ("get", "cget"):
+        elif o[0] == "get":
             if not valid(o[1][2], len(l)): return out, True
             out.append(l[norm(o[1][2], len(l))])
         elif o[0] in ("len", "clen"): out.append(len(l))
@@ -116,7 +172,7 @@ def py_spec(p):
     return out, False
 
 def coq_idx(i):
-    return "{| ix_kind := %s; ix_ty := %s; ix_val := %s |}" % ("KConst" if i[0] == "const" else "KOpaque", CTOR[i[1]], common.coq_z(i[2]))
+    return "{| ix_kind := %s; ix_ty := %s; ix_val := %s; ix_path := %s |}" % ("KConst" if i[0] == "const" else "KOpaque", CTOR[i[1]], common.coq_z(i[2]), PCTOR[ipath(i)])
 def coq_zs(vs): return "[" + "; ".join(common.coq_z(v) for v in vs) + "]"
 def coq_op(o):
     if o[0] == "lit": return "OLit %s" % coq_zs(o[1])
@@ -127,8 +183,6 @@ def coq_op(o):
     if o[0] == "sget": return "OSGet %s" % coq_idx(o[1])
     if o[0] == "cgrow": return "OCallGrow %s" % coq_zs(o[1])
     if o[0] == "clen": return "OCallLen"
-    if o[0] == "cset": return "OCallSet %s %s" % (coq_idx(o[1]), common.coq_z(o[2]))
-    if o[0] == "cget": return "OCallGet %s" % coq_idx(o[1])
     return "OPrint %s" % common.coq_z(o[1])
 def coq_prog(p):
     return "{| p_str := %s; p_init := %s; p_ops := [%s] |}" % (coq_zs([ord(c) for c in p["str"]]), coq_zs(p["init"]),
@@ -142,8 +196,10 @@ class Gen:
     def val(self):
         self.uid += 1
         return self.uid if self.r.random() < 0.85 else -self.uid
-    def index(self, n, want_valid, pconst):
+    def index(self, n, want_valid, pconst, paths=("direct",)):
         r = self.r
+        pdirect = 0.7 if self.static_only else 0.45
+        path = "direct" if (r.random() < pdirect or len(paths) == 1) else r.choice([q for q in paths if q != "direct"])
         kind = "const" if r.random() < pconst else "opq"
         if want_valid and n > 0:
             v = r.choice([0, n - 1, -1, -n, r.randrange(-n, n)])
@@ -156,10 +212,10 @@ class Gen:
         if not ts:
             v = n; ts = list(self.types)
         t = r.choice(ts) if r.random() < 0.7 else ("i32" if in_ty("i32", v) else r.choice(ts))
-        return (kind, t, v)
+        return (kind, t, v, path)
     def prog(self):
         r = self.r
-        s = "".join(r.sample("ABCDEFGHJKLMNPQRSTUVWXYZabcdefghjkmnpqrstuvwxyz23456789", r.choice([0, 1, 2, 3, 5, 6])))
+        s = "".join(r.sample("ABCDEFGHJKLMNPQRSTUVWXYZabcdefghjkmnpqrstuvwxyz23456789", r.choice([0, 1, 2, 3, 5, 6, 9, 12])))
         init = [self.val() for _ in range(r.choice([0, 1, 2, 3, 3, 4, 5]))]
         n = len(init); ops = []
         nops = r.randrange(4, 22)
@@ -177,32 +233,28 @@ class Gen:
                 y = r.random()
                 if y < 0.55:
                     vs = [self.val() for _ in range(r.choice([0, 1, 1, 2, 3, 5]))]; ops.append(("cgrow", vs)); n += len(vs)
-                elif y < 0.70: ops.append(("clen",))
-                elif y < 0.85:
-                    i = self.index(n, r.random() >= p_invalid, 0.0); ops.append(("cset", i, self.val()))
-                else:
-                    ops.append(("cget", self.index(n, r.random() >= p_invalid, 0.0)))
+                else: ops.append(("clen",))
             elif x < 0.26:
                 xs = [self.val() for _ in range(r.choice([0, 1, 2, 3, 4, 5]))]; ops.append(("lit", xs)); n = len(xs)
             elif x < 0.42:
-                ops.append(("set", self.index(n, r.random() >= p_invalid, pconst), self.val()))
+                ops.append(("set", self.index(n, r.random() >= p_invalid, pconst, SET_PATHS), self.val()))
             elif x < 0.74:
-                ops.append(("get", self.index(n, r.random() >= p_invalid, pconst)))
+                ops.append(("get", self.index(n, r.random() >= p_invalid, pconst, GET_PATHS)))
             elif x < 0.80:
                 ops.append(("len",))
             elif x < 0.94:
-                ops.append(("sget", self.index(len(s), r.random() >= p_invalid, pconst if not self.static_only else 0.5)))
+                ops.append(("sget", self.index(len(s), r.random() >= p_invalid, pconst if not self.static_only else 0.5, SGET_PATHS)))
             else:
                 ops.append(("print", self.val()))
-        if not any(o[0] in ("get", "sget", "len", "print", "cget", "clen") for o in ops):
+        if not any(o[0] in ("get", "sget", "len", "print", "clen") for o in ops):
             ops.append(("get", self.index(n, True, pconst)))
         return dict(str=s, init=init, ops=ops)
 
 # fixed regression histories: the witnesses of the three repaired defects + boundary shapes
-def corpus():
-    O = lambda t, v: ("opq", t, v)
-    C = lambda t, v: ("const", t, v)
-    return [
+def corpus(rng=None, thorough=True):
+    O = lambda t, v, path="direct": ("opq", t, v, path)
+    C = lambda t, v, path="direct": ("const", t, v, path)
+    base = [
         ("panic-flush", dict(str="Hey", init=[10, 20, 30], ops=[("print", 1), ("len",), ("get", O("i32", 3)), ("print", 2)])),
         ("append-len", dict(str="Hey", init=[1, 2, 3], ops=[("app", 4), ("get", C("i32", 3)), ("get", C("i32", -4)), ("set", C("i32", 3), 9), ("get", O("i32", 3))])),
         ("idx-trunc-i64", dict(str="Hey", init=[10, 20, 30], ops=[("print", 5), ("get", O("i64", 2**32))])),
@@ -218,16 +270,30 @@ def corpus():
         ("relit", dict(str="x", init=[1, 2, 3, 4, 5], ops=[("lit", [7, 8]), ("get", C("i32", 1)), ("lit", []), ("len",), ("app", 3), ("get", C("i32", 0)), ("get", O("i32", 1))])),
         ("call-grow", dict(str="x", init=[1, 2, 3], ops=[("get", C("i32", 2)), ("cgrow", [40]), ("cgrow", [50]), ("len",), ("get", C("i32", 3)), ("get", C("i32", -5)),
                                                           ("set", C("i32", 4), 51), ("get", C("i32", 4))])),
-        ("call-grow0-read", dict(str="x", init=[1, 2, 3], ops=[("cgrow", []), ("clen",), ("get", C("i32", 2)), ("cget", O("u8", 1)), ("get", C("i64", -3)), ("cset", O("i64", -1), 9),
-                                                                ("get", C("i32", 2)), ("cgrow", [7, 8, 9]), ("get", C("i8", 5)), ("set", C("i32", -6), 4), ("cget", O("i32", 0)), ("cget", O("i64", 6))])),
-        ("call-set-wide", dict(str="x", init=[1, 2, 3], ops=[("print", 8), ("cset", O("i64", 2**32), 5), ("print", 9)])),
+        ("call-grow0-read", dict(str="x", init=[1, 2, 3], ops=[("cgrow", []), ("clen",), ("get", C("i32", 2)), ("get", O("u8", 1, "val")), ("get", C("i64", -3)), ("set", O("i64", -1, "val"), 9),
+                                                                ("get", C("i32", 2)), ("cgrow", [7, 8, 9]), ("get", C("i8", 5)), ("set", C("i32", -6), 4), ("get", O("i32", 0, "val")), ("get", O("i64", 6, "val"))])),
+        ("call-set-wide", dict(str="x", init=[1, 2, 3], ops=[("print", 8), ("set", O("i64", 2**32, "val"), 5), ("print", 9)])),
         ("str-const-huge", dict(str="abc", init=[1], ops=[("print", 7), ("sget", C("i32", 2**31 - 1))])),
         ("str-const-huge-i64", dict(str="", init=[1], ops=[("sget", C("i32", 0 - 1)), ("sget", C("i64", 2**31 - 2))])),
+        # every access path x first / last / negative / one past (arrays: after an append; strings: long and short)
+        ("paths-array-get", dict(str="x", init=[10, 20, 30], ops=[("app", 40)] + [("get", O("i32", v, q)) for q in GET_PATHS for v in (0, 3, -4)] + [("get", C("i32", 3, "lref")), ("get", C("i64", -1, "elem")), ("get", C("i32", 3, "fld"))])),
+        ("paths-array-set", dict(str="x", init=[10, 20, 30], ops=[x for k, q in enumerate(SET_PATHS) for x in (("set", O("i64", -1 - (k % 3), q), 500 + k), ("get", C("i32", 2 - (k % 3))))])),
+        ("paths-str-long", dict(str="abcdefghi", init=[1], ops=[("sget", O("i32", v, q)) for q in SGET_PATHS for v in (0, 8, -1, -9)] + [("sget", C("i32", 8, "lref")), ("sget", C("i32", -9, "fld"))])),
         ("static-reject", dict(str="x", init=[1, 2, 3], ops=[("print", 1), ("get", C("i32", 3))])),
         ("static-reject-neg", dict(str="x", init=[1, 2, 3], ops=[("set", C("i8", -4), 1)])),
         ("empty", dict(str="", init=[], ops=[("len",), ("sget", O("i32", 0))])),
         ("empty-arr", dict(str="q", init=[], ops=[("len",), ("sget", O("i32", -1)), ("get", O("i32", 0))])),
     ]
+    # one out-of-range access per program and per access path (a panic ends the program):
+    #   string "ab" read at 2 (one past: an over-read of the NUL if the check used a wrong length), array of 4 read at 4
+    NONDIRECT = [q for q in PATHS if q != "direct"]
+    str_oob = [("paths-oob-%s" % q, dict(str="ab", init=[10, 20, 30], ops=[("print", 1), ("sget", O("i32", 1, q)), ("print", 2), ("sget", O("i32", 2, q)), ("print", 3)]))
+               for q in NONDIRECT]
+    arr_oob = [("paths-arr-oob-%s" % q, dict(str="ab", init=[10, 20, 30], ops=[("app", 40), ("print", 1), ("get", O("i32", 3, q)), ("get", O("i32", 4, q)), ("print", 3)]))
+               for q in NONDIRECT]
+    if not thorough and rng is not None:
+        arr_oob = rng.sample(arr_oob, 3)      # quick: all string paths (the fragile lowering), a seeded sample of the array ones
+    return base + str_oob + arr_oob
 
 # control-flow probes: outside the quantifier of C08 (straight-line sequences); the tracker is flow-insensitive
 FLOW_PROBES = [
@@ -417,7 +483,8 @@ def dynamic_stream(run, work, progs, target, tag):
         run.count("%s:%s" % (target, "rejected" if not ob["acc"] else ("panic" if ob["panic"] else "exit0")))
         for o in p["ops"]:
             if o[0] in ("cgrow", "clen"): run.count("call:" + o[0])
-            if o[0] in ("get", "set", "sget", "cget", "cset"):
+            if o[0] in ("get", "set", "sget"):
+                run.count("path:%s:%s" % (o[0], ipath(o[1])))
                 run.count("index:%s:%s" % (o[0], o[1][0])); run.count("ity:" + o[1][1])
         w = judge(p, ob)
         if w:
@@ -449,14 +516,14 @@ def flow_probes(run, work):
                           {"program": src})
 
 def wasm_ok(p):
-    return all(o[1][1] in WASM_TY for o in p["ops"] if o[0] in ("get", "set", "sget", "cget", "cset"))
+    return all(o[1][1] in WASM_TY for o in p["ops"] if o[0] in ("get", "set", "sget"))
 
 def main(run):
     work = Work()
     thorough = run.tier == "thorough"
     run.rule = ("a case is one straight-line history rendered to a Ferret program (literal of length 0-5, appends incl. bursts across "
                 "capacities 4/8/16, re-assignment by literal, calls handing the array by name to user functions that append k>=0 elements / only read / "
-                "assign or read an element through the parameter, element assignment, indexing with literal/constant/opaque indices of all 13 "
+                "assign or read an element through the parameter, element assignment, indexing through every access path (direct, by-value / & / &' parameter, & / &' local, struct field by value or through a reference, element of an array of containers) with literal/constant/opaque indices of all 13 "
                 "integer types at -len-2..len+2 and at 2^31/2^32/2^63/2^64 boundaries, len, string indexing); distinct = hash of program text")
     run.trusted += ["harness/c08.py: renderer of histories to Ferret source, reading of exit status / stdout / stderr, python mirror of the reference (cross-checked against Coq spec on every case)",
                     "libc stdio buffering of a pipe is modelled as an unbounded buffer flushed by exit() and fflush, dropped by abort()"]
@@ -473,9 +540,9 @@ def main(run):
                       {"theorem_file": "coq/Props/C08.v", "where": where, "log": log}, no_input=True)
 
     # 1. fixed corpus, native + wasm
-    cp = corpus()
+    cp = corpus(run.rng, thorough)
     dynamic_stream(run, work, [p for _, p in cp], "native", "cn")
-    dynamic_stream(run, work, [p for _, p in cp if wasm_ok(p)], "wasm", "cw")
+    dynamic_stream(run, work, [p for n, p in cp if wasm_ok(p) and (thorough or not n.startswith("paths-") or n in ("paths-array-get", "paths-array-set", "paths-str-long", "paths-oob-ref", "paths-oob-lmut", "paths-oob-fref"))], "wasm", "cw")
     flow_probes(run, work)
     # 2. static tracker at volume (type-check only, in-process)
     static_stream(run, work, 4000 if thorough else 400)
